@@ -526,19 +526,55 @@ func r05_3(c *RC) {
 	if f3 := p.Fn(protoPkg, "PacketUnderlay.tryDecryptExistingSession"); f3 == nil {
 		c.Anchor("PacketUnderlay.tryDecryptExistingSession")
 	} else {
+		// Whatever shape the scan has (closure over named results, a visitor
+		// method on a scan struct, a per-session helper returning the four
+		// results): every store of a block cipher and every store of `true`
+		// in the scan's code sits on the err==nil edge of the session
+		// cipher's Decrypt; results merely handed on from a scan helper are
+		// judged where the helper makes them.
+		family := withHelpers(p, f3, 3)
+		inFamily := map[*ssa.Function]bool{}
+		for _, f := range family {
+			inFamily[f] = true
+		}
+		bcT := p.Named("pkg/cipher", "BlockCipher")
 		n := 0
-		for _, a := range f3.AnonFuncs {
-			instrs(a, func(_ *ssa.BasicBlock, _ int, in ssa.Instruction) {
+		for _, f := range family {
+			instrs(f, func(_ *ssa.BasicBlock, _ int, in ssa.Instruction) {
 				st, ok := in.(*ssa.Store)
 				if !ok {
 					return
 				}
-				fv, isFree := st.Addr.(*ssa.FreeVar)
-				if !isFree || (fv.Name() != "blockCipher" && fv.Name() != "decrypted") {
+				what := ""
+				switch {
+				case bcT != nil && types.Identical(st.Val.Type(), bcT):
+					what = "blockCipher"
+				case isBoolType(st.Val.Type()):
+					what = "decrypted"
+				default:
+					return
+				}
+				// zero values and handed-on helper results are not makers
+				maker := false
+				for _, l := range Leaves(st.Val, nil) {
+					switch x := l.(type) {
+					case *ssa.Const:
+						if what == "decrypted" && x.Value != nil && x.Value.String() == "true" {
+							maker = true
+						}
+					case *ssa.Extract:
+						if cl, ok := x.Tuple.(*ssa.Call); !ok || cl.Common().StaticCallee() == nil || !inFamily[cl.Common().StaticCallee()] {
+							maker = true
+						}
+					default:
+						maker = true
+					}
+				}
+				if !maker {
 					return
 				}
 				n++
-				key := "existing-session:" + fv.Name()
+				key := "existing-session:" + what
 				good := false
 				for _, nc := range nilErrCalls(in) {
 					if nc.Common().IsInvoke() && nc.Common().Method.Name() == "Decrypt" {
@@ -546,16 +582,85 @@ func r05_3(c *RC) {
 					}
 				}
 				if good {
-					c.OKH(key, in.Pos(), "%s set only on the err==nil edge of the session cipher's Decrypt", fv.Name())
+					c.OKH(key, in.Pos(), "%s set only on the err==nil edge of the session cipher's Decrypt", what)
 				} else {
-					c.Bad(key, in.Pos(), "%s is set in tryDecryptExistingSession outside the err==nil edge of Decrypt", fv.Name())
+					c.Bad(key, in.Pos(), "%s is set in tryDecryptExistingSession outside the err==nil edge of Decrypt", what)
+				}
+			})
+		}
+		// ... and the same for results a scan helper returns from registers
+		// (named results that no closure captures are not stored anywhere)
+		for _, f := range family {
+			if f == f3 {
+				continue
+			}
+			instrs(f, func(_ *ssa.BasicBlock, _ int, in ssa.Instruction) {
+				ret, ok := in.(*ssa.Return)
+				if !ok {
+					return
+				}
+				for i := range ret.Results {
+					v := retVal(ret, i)
+					what := ""
+					switch {
+					case bcT != nil && types.Identical(v.Type(), bcT):
+						what = "blockCipher"
+					case isBoolType(v.Type()) && len(ret.Results) > 1:
+						what = "decrypted"
+					default:
+						continue
+					}
+					type src struct {
+						v ssa.Value
+						b *ssa.BasicBlock
+					}
+					var srcs []src
+					var walk func(v ssa.Value, b *ssa.BasicBlock, d int)
+					walk = func(v ssa.Value, b *ssa.BasicBlock, d int) {
+						if phi, ok := v.(*ssa.Phi); ok && d < 6 {
+							for k, e := range phi.Edges {
+								walk(e, phi.Block().Preds[k], d+1)
+							}
+							return
+						}
+						srcs = append(srcs, src{v, b})
+					}
+					walk(v, ret.Block(), 0)
+					for _, sv := range srcs {
+						if k, isK := sv.v.(*ssa.Const); isK && (k.Value == nil || k.Value.String() == "false") {
+							continue
+						}
+						if ex, isEx := sv.v.(*ssa.Extract); isEx {
+							if cl, ok := ex.Tuple.(*ssa.Call); ok && cl.Common().StaticCallee() != nil && inFamily[cl.Common().StaticCallee()] {
+								continue
+							}
+						}
+						n++
+						key := "existing-session:" + what
+						good := false
+						for _, nc := range nilErrCallsBlock(sv.b) {
+							if nc.Common().IsInvoke() && nc.Common().Method.Name() == "Decrypt" {
+								good = true
+							}
+						}
+						if good {
+							c.OKH(key, ret.Pos(), "%s returned non-zero only from the err==nil edge of the session cipher's Decrypt", what)
+						} else {
+							c.Bad(key, ret.Pos(), "%s returns a %s (%s) that was not made on the err==nil edge of Decrypt", fnName(f), what, describe(sv.v))
+						}
+					}
 				}
 			})
 		}
 		if n < 2 {
-			c.Undecided("existing-session:results", f3.Pos(), "expected stores to the named results blockCipher and decrypted in the Range closure, found %d", n)
+			c.Undecided("existing-session:results", f3.Pos(), "expected the scan to set a block cipher and a success flag, found %d such stores", n)
 		}
 	}
+}
+
+func isBoolType(t types.Type) bool {
+	bt, ok := t.Underlying().(*types.Basic)
+	return ok && bt.Kind() == types.Bool
 }
 
 func isDecryptedValue(v ssa.Value) bool {
